@@ -1,6 +1,7 @@
 package checks
 
 import (
+	"bytes"
 	"fmt"
 	"math/rand"
 	"testing"
@@ -67,6 +68,60 @@ func sleepScript(caseNo int, rng *rand.Rand) []Step {
 	return steps
 }
 
+// wlSleepInflight: the client falls asleep while an exchange it started is still waiting for the
+// broker's answer (the broker model answers late), then wakes up.
+var wlSleepInflight = Workload{
+	Name: "sleep-inflight",
+	N:    func(r *rt.Run) int { return r.N(600, 12000) },
+	Run: func(t *testing.T, c *rt.Case, i int, rng *rand.Rand) *GWRun {
+		ka := uint16(10)
+		steps := []Step{snStep(snref.Connect("cl", ka, false, true)), snStep(snref.SubscribeName(2, uint8(rng.Intn(3)), "#")), advStep(2 * time.Second)}
+		mid := uint16(2)
+		tag := 0
+		inflight := func() Step {
+			mid++
+			switch rng.Intn(6) {
+			case 0, 1:
+				return snStep(snref.Pingreq(""))
+			case 2:
+				return snStep(snref.Publish(2, snref.ShortID("ab"), mid, 1, false, false, []byte(fmt.Sprintf("cp%d-%d", c.I, mid))))
+			case 3:
+				return snStep(snref.Publish(2, snref.ShortID("cd"), mid, 2, false, false, []byte(fmt.Sprintf("cp%d-%d", c.I, mid))))
+			case 4:
+				return snStep(snref.SubscribeName(mid, 1, fmt.Sprintf("x/%d", mid)))
+			}
+			return snStep(snref.UnsubscribeName(mid, "never/subscribed"))
+		}
+		pub := func() Step {
+			tag++
+			topic := []string{"ab", "pre/one", "cd"}[rng.Intn(3)]
+			return pubStep(topic, byte(rng.Intn(3)), false, fmt.Sprintf("i%d-%d", c.I, tag))
+		}
+		for cy := 0; cy < 1+rng.Intn(3); cy++ {
+			for k := 1 + rng.Intn(2); k > 0; k-- {
+				steps = append(steps, inflight())
+			}
+			steps = append(steps, snStep(snref.Sleep(uint16(5+rng.Intn(20)))), advStep(500*time.Millisecond))
+			for k := rng.Intn(3); k > 0; k-- {
+				steps = append(steps, pub())
+			}
+			// the late answers arrive now, while the client sleeps
+			steps = append(steps, advStep(2*time.Second))
+			if rng.Intn(2) == 0 {
+				steps = append(steps, pub())
+			}
+			steps = append(steps, snStep(snref.Pingreq("cl")), advStep(time.Second))
+			if rng.Intn(2) == 0 {
+				steps = append(steps, snStep(snref.Connect("cl", ka, false, false)), advStep(time.Second))
+			} else {
+				steps = append(steps, snStep(snref.Pingreq("cl")), advStep(time.Second), snStep(snref.Connect("cl", ka, false, false)), advStep(time.Second))
+			}
+		}
+		bc := world.BrokerCfg{FirstID: 30000, PingrespDelay: time.Second, AckDelay: time.Second}
+		return runScript(t, c, world.GWConfig{Predefined: stdPredefined(), RetryCount: 1, RetryDelay: 100 * time.Second}, bc, PeerOpts{}, steps, 2*time.Second, nil)
+	},
+}
+
 // ---- termination workload: base histories x cause x every step index ----
 
 type baseHist struct {
@@ -130,6 +185,14 @@ func baseHistories() []baseHist {
 			advStep(time.Second),
 			snStep(snref.Connect("cl", 30, false, false)),
 		}},
+		{"stalled-broker", gw(false), PeerOpts{}, world.BrokerCfg{FirstID: 30000}, []Step{
+			snStep(snref.Connect("cl", 30, false, true)),
+			{Kind: "stall"},
+			snStep(snref.Publish(2, snref.ShortID("ab"), 0, 0, false, false, bytes.Repeat([]byte("x"), 1500))),
+			snStep(snref.Publish(2, snref.ShortID("ab"), 0, 0, false, false, bytes.Repeat([]byte("y"), 1500))),
+			snStep(snref.Publish(2, snref.ShortID("ab"), 0, 0, false, false, bytes.Repeat([]byte("z"), 1500))),
+			advStep(time.Second),
+		}},
 		{"half-open-connect", gw(true), PeerOpts{NoWillReply: true}, world.BrokerCfg{FirstID: 30000}, []Step{
 			snStep(snref.Connect("cl", 30, true, true)),
 			advStep(time.Second),
@@ -152,6 +215,14 @@ func termCases() []termCase {
 	for hi, h := range baseHistories() {
 		for cut := 0; cut <= len(h.steps); cut++ {
 			for _, cz := range termCauses {
+				if h.name == "stalled-broker" && cut >= 3 && cz != "shutdown" && cz != "broker-close" {
+					// the session's MQTT-SN loop is blocked writing to the broker: it cannot
+					// see client packets at all; only shutdown and a broker close reach it
+					continue
+				}
+				if h.name == "stalled-broker" && (cz == "broker-garbage" || cz == "broker-illegal") && cut >= 2 {
+					continue // a broker which does not read is still allowed to write, but keep the history simple
+				}
 				out = append(out, termCase{hi, cut, cz})
 			}
 		}
@@ -309,10 +380,10 @@ var wlExhaustion = Workload{
 
 func TestC11(t *testing.T) {
 	r := rt.Start(t, "C11")
-	runWorkloads(t, r, []Workload{wlSleep, wlSleepRacy}, func(g *GWRun) ([]monitors.V, int) {
+	runWorkloads(t, r, []Workload{wlSleep, wlSleepRacy, wlSleepInflight}, func(g *GWRun) ([]monitors.V, int) {
 		return monitors.C11(g.Items, toPredef(g.Cfg.Predefined))
 	})
-	r.Finish("workload sleep: CONNECT, SUBSCRIBE '#', then 1-4 sleep cycles (sleep durations {KA/2, KA-1, KA, KA+1, 2KA, 10KA}, keep-alive {5,10,60}) with 0-3 broker publishes (QoS 0-2; short, predefined, registered and new topics; unique payloads) at random instants inside each window, wake-up by PINGREQ, optionally a publish right after the wake-up, optionally CONNECT back to active; lock-step. Workload sleep-racy: the same with the publish injected at the same virtual instant as the sleep DISCONNECT or the PINGREQ without waiting for quiescence (the two receive loops race), repeated. Oracle from the wire: (a) no datagram to the client inside a sleep window (from the gateway's DISCONNECT ack, and again from each wake-up's PINGRESP, until the next PINGREQ/CONNECT/DISCONNECT); (b) every broker message that arrived while asleep is delivered exactly once (DUP retransmissions aside) within the next wake-up (two when a REGISTER round trip is needed), messages that need no registration in broker order. Non-trivial = at least one window or buffered message was checked.", nil)
+	r.Finish("workload sleep: CONNECT, SUBSCRIBE '#', then 1-4 sleep cycles (sleep durations {KA/2, KA-1, KA, KA+1, 2KA, 10KA}, keep-alive {5,10,60}) with 0-3 broker publishes (QoS 0-2; short, predefined, registered and new topics; unique payloads) at random instants inside each window, wake-up by PINGREQ, optionally a publish right after the wake-up, optionally CONNECT back to active; lock-step. Workload sleep-racy: the same with the publish injected at the same virtual instant as the sleep DISCONNECT or the PINGREQ without waiting for quiescence (the two receive loops race), repeated. Workload sleep-inflight: the client falls asleep while 1-2 exchanges it started (PINGREQ, PUBLISH QoS 1/2, SUBSCRIBE, UNSUBSCRIBE) still wait for the broker, whose answers arrive 1 s later, inside the sleep window; then wake-ups and CONNECT. Oracle from the wire: (a) no datagram to the client inside a sleep window (from the gateway's DISCONNECT ack, and again from each wake-up's PINGRESP, until the next PINGREQ/CONNECT/DISCONNECT); (b) every broker message that arrived while asleep is delivered exactly once (DUP retransmissions aside) within the next wake-up (two when a REGISTER round trip is needed), messages that need no registration in broker order; (c) every acknowledgement (PUBACK/PUBREC/PUBCOMP/SUBACK/UNSUBACK) that arrived from the broker while asleep is delivered by the next wake-up. Non-trivial = at least one window or buffered message was checked.", nil)
 }
 
 // wlSleepRacy: broker publishes injected at the very instant of the sleep DISCONNECT / the waking PINGREQ.
